@@ -589,8 +589,9 @@ func TestC30(t *testing.T) {
 	kfRecip, kfRecipOK := kf.Known("C30", "const-dividend-becomes-reciprocal-multiply")
 	kfMin, kfMinOK := kf.Known("C30", "folded-minus-minint64")
 	kfPool, kfPoolOK := kf.Known("C30", "constant-pool-merges-representations")
+	kfDrop, kfDropOK := kf.Known("C30", "dnum-identity-dropped-beyond-16")
 
-	rt.Check(t, rec, "shapes", 10000, 200000, func(t *rapid.T) {
+	rt.Check(t, rec, "shapes", 7000, 200000, func(t *rapid.T) {
 		g := &egen{t: t}
 		g.safe = gen.Chance(t, "safe", 45)
 		var e cx
@@ -655,7 +656,7 @@ func TestC30(t *testing.T) {
 			default:
 				return
 			}
-			wide := false
+			wide, allones := false, false
 			for _, o := range c.es {
 				// an operand that is (or folds to) the absorbing element
 				r := compileAndCall("function ("+strings.Join(allParams, ", ")+") { "+renderCx(o, pname)+" }", allArgs...)
@@ -668,8 +669,14 @@ func TestC30(t *testing.T) {
 				if n, ok := r.v.IfInt(); ok && (n < 0 || n > 0xffffffff) {
 					wide = true
 				}
+				if n, ok := r.v.IfInt(); ok && n == 0xffffffff {
+					allones = true
+				}
 			}
 			if wide && (c.fam == "bitand" || c.fam == "bitor" && has) {
+				absBitor = true
+			}
+			if c.fam == "bitand" && allones {
 				absBitor = true
 			}
 			if !has {
@@ -700,47 +707,17 @@ func TestC30(t *testing.T) {
 		}
 
 		// known finding: c / x with constant c and non-constant x is compiled
-		// as (1 / x) * c. Predicate: in the mixed version a * / chain has only
-		// constant multiplicands and a non-constant divisor, and evaluating
-		// the reciprocal-first form at run time differs from the chain itself.
+		// as (1 / x) * c. Predicate: the folded AST of a version contains a
+		// * / chain that begins with a division; the source language cannot
+		// express that, only this rewriting produces it.
 		recip := false
-		constInMix := func(x cx) bool {
-			all := true
-			walkCx(x, func(y cx) {
-				if l, ok := y.(*cxLeaf); ok && !lit[l.i] {
-					all = false
-				}
-			})
-			return all
-		}
-		walkCx(e, func(x cx) {
-			c, ok := x.(*cxNary)
-			if !ok || c.fam != "mul" || recip {
-				return
-			}
-			varDiv, varMul := false, false
-			var muls, divs []string
-			for k, o := range c.es {
-				if c.ops[k] == "/" {
-					divs = append(divs, renderCx(o, pname))
-					varDiv = varDiv || !constInMix(o)
-				} else {
-					muls = append(muls, renderCx(o, pname))
-					varMul = varMul || !constInMix(o)
-				}
-			}
-			if !varDiv || varMul {
-				return
-			}
-			hdr := "function (" + strings.Join(allParams, ", ") + ") { "
-			a := compileAndCall(hdr+renderCx(c, pname)+" }", allArgs...)
-			b := compileAndCall(hdr+"1 / "+strings.Join(divs, " / ")+" * "+strings.Join(muls, " * ")+" }", allArgs...)
-			if a.failed() != b.failed() || (!a.failed() && !sameValue(a.v, b.v)) {
+		for i := 1; i < len(shapes); i++ {
+			if strings.Contains(astOf(shapes[i].src, true), "Nary(Mul Unary(Div ") {
 				recip = true
 			}
-		})
+		}
 		if recip {
-			rec.Label("const_dividend_over_variable_divisor_inexact")
+			rec.Label("const_dividend_over_variable_divisor")
 			if kfRecipOK {
 				rec.Case(false, shapes[2].src)
 				rec.Excluded("const-dividend-becomes-reciprocal-multiply")
@@ -759,7 +736,12 @@ func TestC30(t *testing.T) {
 			}
 			for k, o := range c.es {
 				if c.ops[k] != "-" {
-					continue
+					// `a + - b` is compiled like `a - b`
+					u, ok := o.(*cxUn)
+					if !ok || u.op != "-" || k == 0 {
+						continue
+					}
+					o = u.e
 				}
 				r := compileAndCall(hdr+renderCx(o, pname)+" }", allArgs...)
 				if !r.failed() && r.v != nil {
@@ -775,6 +757,42 @@ func TestC30(t *testing.T) {
 				rec.Case(false, shapes[1].src)
 				rec.Excluded("folded-minus-minint64")
 				rec.Known(kfMin.What)
+				return
+			}
+		}
+		// known finding: an integer-valued SuDnum equal to the identity is
+		// dropped by the folder; at run time it switches the chain to decimal
+		// arithmetic (matters only next to integers of 17+ digits)
+		dropped := false
+		walkCx(e, func(x cx) {
+			c, ok := x.(*cxNary)
+			if !ok || (c.fam != "add" && c.fam != "mul") || dropped {
+				return
+			}
+			ident, big := false, false
+			for _, o := range c.es {
+				r := compileAndCall(hdr+renderCx(o, pname)+" }", allArgs...)
+				if r.failed() || r.v == nil {
+					continue
+				}
+				if d, ok := r.v.(core.SuDnum); ok {
+					if c.fam == "add" && d.IsZero() || c.fam == "mul" && d.Equal(core.One) {
+						ident = true
+					}
+				} else if n, ok := r.v.IfInt(); ok && (n >= 1e16 || n <= -1e16) {
+					big = true
+				}
+			}
+			if ident && big {
+				dropped = true
+			}
+		})
+		if dropped {
+			rec.Label("dnum_identity_next_to_17_digit_integer")
+			if kfDropOK {
+				rec.Case(false, shapes[1].src)
+				rec.Excluded("dnum-identity-dropped-beyond-16")
+				rec.Known(kfDrop.What)
 				return
 			}
 		}
@@ -844,15 +862,33 @@ func TestC30(t *testing.T) {
 				// fails when evaluated on its own.
 				dead := false
 				walkCx(e, func(x cx) {
-					if dead || x == e {
+					if dead {
 						return
 					}
 					if _, ok := x.(*cxLeaf); ok {
 						return
 					}
-					sr := compileAndCall("function ("+strings.Join(allParams, ", ")+") { "+renderCx(x, pname)+" }", allArgs...)
-					if sr.failed() {
-						dead = true
+					if x != e {
+						sr := compileAndCall("function ("+strings.Join(allParams, ", ")+") { "+renderCx(x, pname)+" }", allArgs...)
+						if sr.failed() {
+							dead = true
+						}
+					}
+					// operands of and / or and conditions of ?: used as conditions
+					var conds []cx
+					switch n := x.(type) {
+					case *cxNary:
+						if n.fam == "and" || n.fam == "or" {
+							conds = n.es
+						}
+					case *cxTri:
+						conds = []cx{n.c}
+					}
+					for _, c := range conds {
+						cr := compileAndCall("function ("+strings.Join(allParams, ", ")+") { ("+renderCx(c, pname)+") ? 1 : 2 }", allArgs...)
+						if cr.failed() {
+							dead = true
+						}
 					}
 				})
 				if dead {
